@@ -1087,6 +1087,10 @@ def c11_rules(ctx, f):
                     names.append("non-additive:" + expr_str(lf, g))
             want = ["score::dark_module_score", "score::matrix_score_squares", "score::matrix_pattern_and_line.0",
                     "score::matrix_pattern_and_line.1", "score::matrix_pattern_and_line.2"]
+            if not any(w in names for w in want):
+                # the total is not written as a sum of the component calls (sum over an array, an accumulator type, ..)
+                ctx.abstain(r5, "the total penalty is not an addition of the component calls: %s" % names[:3], where_fn(g))
+                want = []
             for w in want:
                 ctx.check(r5, names.count(w) == 1, g.path + "/term/" + w.split("::")[-1], where_fn(g), g.path, w,
                           "this penalty component is not added exactly once to the total", found=names,
